@@ -47,6 +47,10 @@ const (
 
 	// RawSocket header ID.
 	magic = 0x7f
+
+	// maxFrameLen is the largest payload length that the 24-bit length field
+	// of a frame header can carry.
+	maxFrameLen = 1<<24 - 1
 )
 
 // ConnectRawSocketPeer creates a new rawSocketPeer with the specified config,
@@ -213,9 +217,9 @@ sendLoop:
 				rs.log.Print(err)
 				continue sendLoop
 			}
-			if len(b) > rs.sendLimit {
+			if len(b) > rs.sendLimit || len(b) > maxFrameLen {
 				rs.log.Println("Message size", len(b), "exceeds limit of",
-					rs.sendLimit)
+					min(rs.sendLimit, maxFrameLen))
 				continue sendLoop
 			}
 			lenBytes := intToBytes(len(b))
